@@ -224,23 +224,24 @@ Print Assumptions ALGO_quiescent_equal.
 (* ---- where the model can answer OutOfFragment ---------------------------------------------------------------- *)
 (* The theorems above are about runs on which the model answers ROk.  The model has 28 OutOfFragment codes plus the
    error results of the SyncState operations (assertion failures, KeyError ...).  On in-domain runs under ANY schedule
-   all but seven are proved unreachable: an in-domain run either goes through or stops with a code of
+   all but six are proved unreachable: an in-domain run either goes through or stops with a code of
    [G_SYNC] = X_IRRELEVANT (translate() = None at the top of embrace_change), X_LEVEL + 3 (_get_parent_conflict found a
    conflict), X_MISSING (handle_changed_is_missing), X_HASHDIFF_GONE (handle_hash_diff with the other side gone),
    X_PEERS (check_disjoint_create found another entry on the translated path), X_DELETE_OTHER (delete_synced found another
-   entry on the path), X_CREATE_EXISTS (create(): the target path is occupied).  That these seven never fire on in-domain
-   runs is measured by the tie (0 answers on ~90 000 runs), not proved.  Proved unreachable in particular: every
-   SyncState assertion / KeyError / RecursionError, hash_conflict, path_conflict, the split guard of bbf04b7/0292e7f,
-   upload / rename / mkdir / download / delete errors, CONFLICT and IRRELEVANT entries, events for the sync root. *)
+   entry on the path).  That these six never fire on in-domain runs is measured by the tie (0 answers on ~90 000 runs),
+   not proved.  Proved unreachable in particular: every SyncState assertion / KeyError / RecursionError, every refusal of
+   a provider call the engine issues - create (the translated path is free: user-made objects have pairwise different
+   names, [Uniq]), upload, delete, download -, hash_conflict, path_conflict, the split guard of bbf04b7/0292e7f,
+   CONFLICT and IRRELEVANT entries, events for the sync root. *)
 Theorem ALGO_out_of_fragment_guards : forall t0 lg0 acts c,
   lg0 <= t0 + 1 -> in_F1 (cfg_std 1) (history_of acts) = true ->
   algo_run (world_init (cfg_std 1) t0 lg0) acts = OutOfFragment c -> In c G_SYNC.
 Proof. exact algo_out_of_fragment_guards. Qed.
 Print Assumptions ALGO_out_of_fragment_guards.
 
-(* one engine step, from any world satisfying the invariant *)
+(* one engine step, from any world satisfying the invariant in which user-made objects have different names *)
 Theorem ALGO_engine_step_guards : forall g w a c,
-  Inv g w -> NoTmp w -> algo_step w a = OutOfFragment c -> In c G_SYNC.
+  Inv g w -> NoTmp w -> Uniq g w -> algo_step w a = OutOfFragment c -> In c G_SYNC.
 Proof. exact engine_step_guards. Qed.
 Print Assumptions ALGO_engine_step_guards.
 
@@ -260,7 +261,7 @@ Print Assumptions ALGO_pre_sync_total.
 Theorem ALGO_sync_step_total_up_to_sync : forall g w order c,
   Inv g w -> NoTmp w -> sync_step w order = OutOfFragment c ->
   exists w3 e en3, SCtx g w3 e en3 /\ e_ign en3 = INone /\ notmp w3 e /\ maxchg en3 <= now (w_st w3) /\
-                   sync_entry w3 e = OutOfFragment c.
+                   sync_entry w3 e = OutOfFragment c /\ OwnFrame g w w3.
 Proof. exact sync_step_total_up_to_sync. Qed.
 Print Assumptions ALGO_sync_step_total_up_to_sync.
 
